@@ -8,7 +8,7 @@ for d in /verif/seeded/*/; do
   git -C /repo apply "$d/patch.diff" || { echo "$id: patch does not apply"; continue; }
   out="$(cd /verif && ./vcheck "$prop" "$tier" 2>&1)"; rc=$?
   git -C /repo checkout -q -- .
-  classes="$(echo "$out" | grep -E '^  class:' | sed 's/  class: //' | sort -u | tr '\n' ';' | cut -c1-200)"
+  classes="$(echo "$out" | grep -aE '^  class:' | sed 's/  class: //' | sort -u | tr '\n' ';' | cut -c1-200)"
   if [ $rc -eq 1 ]; then echo "$id ($prop $tier): CAUGHT  $classes"; else echo "$id ($prop $tier): MISSED (exit $rc)"; fi
 done
 rm -rf /verif/replays
